@@ -1,8 +1,8 @@
-\* C08/C15 quick, timestamp requests T in 1..3: TXIDs 1..4, <= 3 files, file timestamps 1..2.
+\* C08/C15 quick, timestamp requests T in 1..3: TXIDs 1..3, <= 3 files, file timestamps 1..2.
 \* The runner rewrites `Part = 0` for every shard 0..Parts-1 (one TLC process each; Fanout: several workers per process).
 SPECIFICATION Spec
 CONSTANTS
-  N = 4
+  N = 3
   Levels = {0, 1, 2, 9}
   MaxFiles = 3
   MaxTs = 2
